@@ -382,3 +382,96 @@ def _spec_oracle_accuracy(self, e, fr):
 X.Interp.spec_margin_signal = _spec_margin_signal
 X.Interp.spec_oracle_columns_mismatch = _spec_cols_mismatch
 X.Interp.spec_oracle_accuracy = _spec_oracle_accuracy
+
+
+# ---------------------------------------------------------------------------------------------------------------------
+# NNSpacePartitioner as an opaque object inside NNDVI (C10 skeleton): build(ref, test) determines the NNPS matrix and
+# the two membership vectors as deterministic uninterpreted functions of the two data blocks and k
+def _blk(it, v):
+    """(cells, rows, width) of a 2-D block as z3 terms"""
+    if isinstance(v, SOpt):
+        v = it.run.unopt(v, "data block")
+    i, j = z3.Ints("i!blk j!blk")
+    if isinstance(v, A.SNd) and v.shape is not None and len(v.shape) == 2:
+        n, d = b2i(z(v.shape[0])), b2i(z(v.shape[1]))
+        cell = to_real(v.elem((i, j)))
+    elif isinstance(v, SOpaque) and v.sort == "RawX":
+        # a raw input stands for its batch-coerced value (rows x width after validation)
+        m = v.meta
+        two = z3.Or(m["is_df"], m["ndim"] == 2)
+        nc = it.ctx.uf("cols_len", it.ctx.sort("Cols"), INT)
+        n = z3.If(two, m["d0"], z3.If(m["ndim"] == 1, m["d0"], 1))
+        d = z3.If(m["is_df"], nc(m["cols"]), z3.If(m["ndim"] == 2, m["d1"], 1))
+        cell = z3.If(two, m["vals"][i, j], m["vals"][z3.IntVal(0), i])
+    else:
+        raise Unsupported("not a 2-D data block: %r" % (v,))
+    # canonical form: cells outside the block are 0, so that two blocks with the same cells are the same array
+    return z3.Lambda([i, j], z3.If(z3.And(i >= 0, i < n, j >= 0, j < d), cell, z3.RealVal(0))), n, d
+    if False:
+        pass
+
+
+def nnsp_parts(it, ref, test, k):
+    ctx = it.ctx
+    B = z3.ArraySort(INT, INT, REAL)
+    ra, rn, rd = _blk(it, ref)
+    ta, tn, td = _blk(it, test)
+    kk = b2i(z(k))
+    sig = [B, INT, INT, B, INT, INT, INT]
+    args = [ra, rn, rd, ta, tn, td, kk]
+    M = ctx.uf("nnsp_matrix", *(sig + [ctx.sort("Mat")]))(*args)
+    L = ctx.uf("nnsp_len", *(sig + [INT]))(*args)
+    v1 = ctx.uf("nnsp_v1", *(sig + [z3.ArraySort(INT, REAL)]))(*args)
+    v2 = ctx.uf("nnsp_v2", *(sig + [z3.ArraySort(INT, REAL)]))(*args)
+    ctx.fact(L >= 1, key=("nnsp-len", L.sexpr()))
+    return SOpaque("Mat", M), v1, v2, L
+
+
+def _nnsp_new(it, args, kwargs, fr, node):
+    it.ctx.models.note(it, "opaque:NNSpacePartitioner (matrix / membership vectors are uninterpreted functions of the two blocks and k)")
+    ref = it.run.alloc(HObj("!NNSP", {"k": args[0], "built": None}))
+    return ref
+
+
+X.CLASS_MODELS["menelaus.partitioners.NNSpacePartitioner:NNSpacePartitioner"] = _nnsp_new
+
+
+def _nnsp_method(models, it, target, obj, name, args, kwargs, fr, node):
+    if isinstance(obj, HObj) and obj.cls == "!NNSP" and name == "build":
+        obj.fields["built"] = (args[0], args[1])
+        return None
+    return NotImplemented
+
+
+HOOKS["method"].insert(0, _nnsp_method)
+
+
+def _nnsp_attr(models, it, base, obj, attr, node):
+    if isinstance(obj, HObj) and obj.cls == "!NNSP":
+        if attr == "build":
+            return SFunc("objmethod", target=base, name=attr)
+        if attr in ("nnps_matrix", "v1", "v2"):
+            if obj.fields.get("built") is None:
+                raise X.PyRaise("AttributeError", "partitioner not built")
+            M, v1, v2, L = nnsp_parts(it, obj.fields["built"][0], obj.fields["built"][1], obj.fields["k"])
+            if attr == "nnps_matrix":
+                return M
+            return it.run.alloc(HSeq(v1 if attr == "v1" else v2, z3.IntVal(0), L, "Real", nd=True))
+    return NotImplemented
+
+
+HOOKS["attr"].insert(0, _nnsp_attr)
+
+
+def _spec_nnsp(which):
+    def f(self, e, fr):
+        M, v1, v2, L = nnsp_parts(self, self.ev(e.args[0], fr), self.ev(e.args[1], fr), self.ev(e.args[2], fr))
+        if which == "M":
+            return M
+        return self.run.alloc(HSeq(v1 if which == "v1" else v2, z3.IntVal(0), L, "Real", nd=True))
+    return f
+
+
+X.Interp.spec_nnsp_matrix = _spec_nnsp("M")
+X.Interp.spec_nnsp_v1 = _spec_nnsp("v1")
+X.Interp.spec_nnsp_v2 = _spec_nnsp("v2")
